@@ -569,9 +569,10 @@ class AReport:
             if tr is None and ob.expr is None and r['result'] == 'sat' and (ob.meta or {}).get('check'):
                 # a structural obligation (no residual to evaluate) failed: replay at a seeded point
                 pt = sample_point(set(self.box) - {'deg'}, self.box, self.rng, self.consts)
-                for k_, v_ in (r.get('model') or {}).items():
-                    if '!' not in k_ and k_ != 'deg':
-                        pt[k_] = v_[0] / v_[1]          # the solver's own counterexample where it names inputs
+                if (ob.meta or {}).get('use_model'):
+                    for k_, v_ in (r.get('model') or {}).items():
+                        if '!' not in k_ and k_ != 'deg':
+                            pt[k_] = v_[0] / v_[1]      # the solver's own counterexample where it names inputs
                 tr = (pt, float('nan'))
             if tr is None:
                 if r['result'] == 'sat':
